@@ -454,3 +454,125 @@ def run_c06(tier, seed, scale, verif):
     return {"evaluations": stats["listed_words_checked"] + stats["unlisted_checked"], "distinct_nontrivial": len(shapes), "samples": [{"dictionary_file_shapes": sorted({a for a, _, _ in shapes}), "novel_words": novel[:4], "lower_case_of_capitalised_entries": mat["lower_of_capitalised"][:4]}],
             "findings": list(merged.values()), "notes": ["harper-ls with user / file dictionaries on disk: %(sessions)d sessions, %(listed_words_checked)d listed words and %(unlisted_checked)d unlisted strings checked" % stats],
             "inconclusive": inconclusive if len(inconclusive) > max(2, n // 10) else [], "counters": {"ls_" + k: v for k, v in stats.items()}, "wall_s": time.time() - t0}
+
+
+def ordinal(n):
+    if n % 100 in (11, 12, 13):
+        return "th"
+    return {1: "st", 2: "nd", 3: "rd"}.get(n % 10, "th")
+
+
+def run_c17(tier, seed, scale, verif):
+    """C17 as an editor sees it: ordinals behind astral / BMP / ASCII text on several lines. The diagnostic of the
+    number-suffix rule must exist exactly for wrong suffixes, cover exactly the two suffix letters (UTF-16 columns),
+    its quick fix must write the correct suffix, and after the fix the rule is silent."""
+    t0 = time.time()
+    rng = random.Random(seed * 4099 + 17)
+    MSG = "This number needs a different suffix to sound right."
+    leads = ["", "", "The ", "\U0001F389 Happy ", "café — the ", "\U0001F600\U0001F600 on the ", "\U0001D400\U0001D401 the ", "中文 the ", "\tthe "]
+    tails = [" birthday", " item.", " of May", "", " place, then", " \U0001F600 time."]
+    ndocs = int((1500 if tier == "quick" else 40000) * scale) or 1
+    docs = []
+    for _ in range(ndocs):
+        lines, marks = [], []
+        for ln in range(rng.randint(1, 5)):
+            n = rng.choice([rng.randint(0, 130), rng.randint(0, 10 ** 5), rng.getrandbits(rng.randint(17, 52))])
+            suf = rng.choice(["st", "nd", "rd", "th"])
+            suf = rng.choice([suf, suf, suf.upper(), suf.capitalize()])
+            lead = rng.choice(leads)
+            line = "%s%d%s%s" % (lead, n, suf, rng.choice(tails))
+            col = len(lead) + len(str(n))
+            marks.append((ln, col, n, suf))
+            lines.append(line)
+        eol = rng.choice(["\n", "\n", "\r\n"])
+        docs.append((eol.join(lines) + rng.choice(["", eol]), marks, eol))
+    base = os.path.join(verif, "target", "run", "lsx_c17")
+    shutil.rmtree(base, ignore_errors=True)
+    os.makedirs(base)
+    findings, inconclusive = [], []
+    stats = {"documents": 0, "ordinals": 0, "wrong_suffixes": 0, "fixes_applied": 0}
+    lock = threading.Lock()
+    nservers = 8
+
+    def session(k):
+        s = None
+        try:
+            s = Server(os.path.join(base, "s%d" % k))
+            s.initialize()
+            for i, (text, marks, eol) in enumerate(docs[k::nservers]):
+                uri = uri_for(os.path.join(s.workdir, "d%d.txt" % i))
+                s.open(uri, text, "plaintext")
+                diags = [d for d in decode(text, s.last_diagnostics(uri)) if d[2] == MSG]
+                out = []
+                line_starts = [0]
+                for j, ch in enumerate(text):
+                    if ch == "\n":
+                        line_starts.append(j + 1)
+                fixed = text
+                for ln, col, n, suf in marks:
+                    a = line_starts[ln] + col
+                    wrong = suf.lower() != ordinal(n)
+                    here = [d for d in diags if d[0] is not None and d[0] < a + 2 and a < d[1]]
+                    wit = {"text": text, "number": n, "suffix": suf}
+                    if wrong and not here:
+                        out.append(("ls.missed", "no number-suffix diagnostic for %d%s (correct: %s)" % (n, suf, ordinal(n)), wit))
+                    elif not wrong and here:
+                        out.append(("ls.false-positive", "%d%s is correct but flagged at %r" % (n, suf, here[0][:2]), wit))
+                    elif wrong:
+                        d = here[0]
+                        if (d[0], d[1]) != (a, a + 2):
+                            out.append(("ls.span", "the diagnostic for %d%s covers chars %d..%d = %r, the suffix letters are at %d..%d" % (n, suf, d[0], d[1], text[d[0]:d[1]], a, a + 2), wit))
+                        lno, c16 = client.index_to_position(text, a)
+                        edits = [e for act in s.code_actions(uri, lno, c16) if "edit" in act for v in (act["edit"].get("changes") or {}).values() for e in v
+                                 if act.get("title", "").lower().find(ordinal(n)) >= 0 or True]
+                        good = False
+                        for e in edits:
+                            got = client.apply_text_edit(text, e)
+                            if got == text[:a] + ordinal(n) + text[a + 2:]:
+                                good = True
+                        if not good:
+                            out.append(("ls.fix", "no quick fix at the suffix of %d%s turns it into %d%s (edits offered: %r)" % (n, suf, n, ordinal(n), [(e["range"], e["newText"]) for e in edits][:4]), wit))
+                        fixed = fixed[:a] + ordinal(n) + fixed[a + 2:]
+                if fixed != text:
+                    s.change(uri, fixed)
+                    again = [d for d in decode(fixed, s.last_diagnostics(uri)) if d[2] == MSG]
+                    if again:
+                        out.append(("ls.not-silent-after-fix", "after all suffixes were corrected the rule still reports %r" % [(d[0], d[1], fixed[d[0]:d[1]]) for d in again][:3], {"text": fixed}))
+                s.close(uri)
+                s.publishes.pop(uri, None)
+                s.log.clear()
+                with lock:
+                    stats["documents"] += 1
+                    stats["ordinals"] += len(marks)
+                    stats["wrong_suffixes"] += sum(1 for m in marks if m[3].lower() != ordinal(m[2]))
+                    stats["fixes_applied"] += fixed != text
+                    for sig, detail, wit in out:
+                        findings.append({"prop": "C17", "sig": sig, "count": 1, "wlen": len(text), "witness": wit, "detail": detail})
+        except (client.Timeout, client.ServerDied, OSError) as e:
+            with lock:
+                inconclusive.append("session %d: %s" % (k, e))
+        finally:
+            if s is not None:
+                try:
+                    s.shutdown()
+                except Exception:
+                    s.kill()
+
+    threads = [threading.Thread(target=session, args=(k,)) for k in range(nservers)]
+    for t in threads:
+        t.start()
+    for t in threads:
+        t.join()
+    shutil.rmtree(base, ignore_errors=True)
+    merged = {}
+    for f in findings:
+        if f["sig"] not in merged:
+            merged[f["sig"]] = f
+        else:
+            merged[f["sig"]]["count"] += 1
+            if f["wlen"] < merged[f["sig"]]["wlen"]:
+                f["count"] = merged[f["sig"]]["count"]
+                merged[f["sig"]] = f
+    return {"evaluations": stats["ordinals"], "distinct_nontrivial": stats["wrong_suffixes"], "samples": [{"text": docs[0][0][:160]}], "findings": list(merged.values()),
+            "notes": ["harper-ls on ordinals behind astral / BMP text: %(documents)d documents, %(ordinals)d ordinals, %(wrong_suffixes)d wrong suffixes, %(fixes_applied)d documents fixed and re-checked" % stats],
+            "inconclusive": inconclusive if len(inconclusive) > 2 else [], "counters": {"ls_" + k: v for k, v in stats.items()}, "wall_s": time.time() - t0}
